@@ -1124,6 +1124,235 @@ fn oneshot_two_sends_by_ref() {
     assert_eq!(oks.iter().filter(|b| **b).count(), 1, "C12: exactly one send on an open oneshot channel is accepted");
 }
 
+// ------------------------------------------------ drop without a further poll while the wake-up is in progress
+// The owner drops its pending future (into a PoisonBox) while another thread performs the operation
+// that completes it; the waker is a scheduling one, so the owner may run while the other thread is
+// inside `wake()`. A `Drop` that looks at its node before taking the lock and decides there is
+// nothing to unlink lets the other thread touch the dropped future afterwards.
+
+fn timer_expire_vs_drop() {
+    CLK.0.store(0, Ordering::SeqCst);
+    let t = Arc::new(GenericTimerService::<LoomRaw>::new(&CLK));
+    let _ = t.next_expiration();
+    let tr: &'static GenericTimerService<LoomRaw> = unsafe { &*(&*t as *const GenericTimerService<LoomRaw>) };
+    let mut f = PoisonBox::new(Timer::deadline(tr, 1));
+    let mut other = Box::pin(Timer::deadline(tr, 3));
+    let (w, _c) = counting_waker();
+    let (wo, co) = counting_waker();
+    assert!(f.pin().poll(&mut Context::from_waker(&w)).is_pending());
+    assert!(other.as_mut().poll(&mut Context::from_waker(&wo)).is_pending());
+    let t1 = t.clone();
+    let h = spawn(move || {
+        CLK.0.store(1, Ordering::SeqCst);
+        t1.check_expirations();
+    });
+    f.kill();
+    h.join().unwrap();
+    assert_eq!(co.load(Ordering::SeqCst), 0, "C15: a timer with deadline 3 was woken at clock 1");
+    assert_eq!(t.next_expiration(), Some(3), "C15/C01: a registered timer that is not due has been lost from the heap");
+    CLK.0.store(3, Ordering::SeqCst);
+    t.check_expirations();
+    assert!(co.load(Ordering::SeqCst) > 0, "C15: due timer not woken");
+    assert!(other.as_mut().poll(&mut Context::from_waker(&wo)).is_ready());
+    drop(other);
+    epilogue_timer(&t, 3);
+}
+
+fn event_set_vs_drop() {
+    let e = Arc::new(GenericManualResetEvent::<LoomRaw>::new(false));
+    let _ = e.is_set();
+    let er: &'static GenericManualResetEvent<LoomRaw> = unsafe { &*(&*e as *const GenericManualResetEvent<LoomRaw>) };
+    let mut other = Box::pin(er.wait());
+    let mut f = PoisonBox::new(er.wait());
+    let (w, _c) = counting_waker();
+    let (wo, co) = counting_waker();
+    assert!(other.as_mut().poll(&mut Context::from_waker(&wo)).is_pending());
+    assert!(f.pin().poll(&mut Context::from_waker(&w)).is_pending());
+    let e1 = e.clone();
+    let h = spawn(move || e1.set());
+    f.kill();
+    h.join().unwrap();
+    assert!(co.load(Ordering::SeqCst) > 0, "C14: set() did not wake a pending waiter");
+    assert!(other.as_mut().poll(&mut Context::from_waker(&wo)).is_ready());
+    drop(other);
+    epilogue_event(&e);
+}
+
+fn sem_release_vs_drop() {
+    let s = Arc::new(GenericSemaphore::<LoomRaw>::new(true, 0));
+    let _ = s.permits();
+    let sr: &'static GenericSemaphore<LoomRaw> = unsafe { &*(&*s as *const GenericSemaphore<LoomRaw>) };
+    let mut f = PoisonBox::new(sr.acquire(1));
+    let mut other = Box::pin(sr.acquire(1));
+    let (w, _c) = counting_waker();
+    let (wo, co) = counting_waker();
+    assert!(f.pin().poll(&mut Context::from_waker(&w)).is_pending());
+    assert!(other.as_mut().poll(&mut Context::from_waker(&wo)).is_pending());
+    let s1 = s.clone();
+    let h = spawn(move || s1.release(1));
+    f.kill();
+    h.join().unwrap();
+    assert!(co.load(Ordering::SeqCst) > 0, "C06: a permit is free and the remaining request fits, but it has not been woken");
+    match other.as_mut().poll(&mut Context::from_waker(&wo)) {
+        Poll::Ready(r) => drop(r),
+        Poll::Pending => panic!("C06: the permit is free but the woken acquire future stays pending"),
+    }
+    drop(other);
+    epilogue_sem(&s, 1);
+}
+
+fn mutex_unlock_vs_drop() {
+    let m = Arc::new(GenericMutex::<LoomRaw, Tracked>::new(Tracked::new(), true));
+    let _ = m.is_locked();
+    let mr: &'static GenericMutex<LoomRaw, Tracked> = unsafe { &*(&*m as *const GenericMutex<LoomRaw, Tracked>) };
+    let g = mr.try_lock().unwrap();
+    let mut f = PoisonBox::new(mr.lock());
+    let mut other = Box::pin(mr.lock());
+    let (w, _c) = counting_waker();
+    let (wo, co) = counting_waker();
+    assert!(f.pin().poll(&mut Context::from_waker(&w)).is_pending());
+    assert!(other.as_mut().poll(&mut Context::from_waker(&wo)).is_pending());
+    let gb = SendBox(Box::new(g));
+    let keep = m.clone();
+    let h = spawn(move || {
+        let g = gb;
+        drop(g);
+        let _ = &keep;
+    });
+    f.kill();
+    h.join().unwrap();
+    assert!(co.load(Ordering::SeqCst) > 0, "C03: the mutex is free and a lock future is pending, but it has not been woken");
+    match other.as_mut().poll(&mut Context::from_waker(&wo)) {
+        Poll::Ready(g) => drop(g),
+        Poll::Pending => panic!("C03: the mutex is free but the woken lock future stays pending"),
+    }
+    drop(other);
+    epilogue_mutex(&m);
+}
+
+fn mpmc_send_vs_drop_recv() {
+    let (tx, rx) = sh::generic_channel::<LoomRaw, u32, FixedHeapBuf<u32>>(1);
+    let _ = rx.try_receive();
+    let mut f = PoisonBox::new(rx.receive());
+    let mut other = Box::pin(rx.receive());
+    let (w, _c) = counting_waker();
+    let (wo, co) = counting_waker();
+    assert!(f.pin().poll(&mut Context::from_waker(&w)).is_pending());
+    assert!(other.as_mut().poll(&mut Context::from_waker(&wo)).is_pending());
+    let tx1 = tx.clone();
+    let h = spawn(move || {
+        let _ = tx1.try_send(5);
+    });
+    f.kill();
+    h.join().unwrap();
+    assert!(co.load(Ordering::SeqCst) > 0, "C10: a value is buffered and a receiver is pending, but it has not been woken");
+    assert_eq!(other.as_mut().poll(&mut Context::from_waker(&wo)), Poll::Ready(Some(5)), "C10: the woken receiver does not get the value");
+    drop(other);
+    drop(tx);
+}
+
+/// the first poll of a wait future races with set(): it completes, or has been woken
+fn event_set_vs_first_poll() {
+    let e = Arc::new(GenericManualResetEvent::<LoomRaw>::new(false));
+    let _ = e.is_set();
+    let er: &'static GenericManualResetEvent<LoomRaw> = unsafe { &*(&*e as *const GenericManualResetEvent<LoomRaw>) };
+    let mut f = Box::pin(er.wait());
+    let (w, c) = counting_waker();
+    let e1 = e.clone();
+    let h = spawn(move || e1.set());
+    let ready = f.as_mut().poll(&mut Context::from_waker(&w)).is_ready();
+    h.join().unwrap();
+    if !ready {
+        assert!(c.load(Ordering::SeqCst) > 0, "C14: set() was called while the waiter was registering, and the waiter was neither completed nor woken");
+        assert!(f.as_mut().poll(&mut Context::from_waker(&w)).is_ready(), "C14: wait future pending although the event is set");
+    }
+    drop(f);
+    epilogue_event(&e);
+}
+
+/// fair mutex: a new lock future is polled for the first time on one thread while the guard is
+/// dropped on another; an older future is waiting (and is not polled by anybody), so the newcomer
+/// must not get the lock
+fn mutex_fair_newcomer() {
+    let m = Arc::new(GenericMutex::<LoomRaw, Tracked>::new(Tracked::new(), true));
+    let _ = m.is_locked();
+    let mr: &'static GenericMutex<LoomRaw, Tracked> = unsafe { &*(&*m as *const GenericMutex<LoomRaw, Tracked>) };
+    let g = mr.try_lock().unwrap();
+    let mut older = Box::pin(mr.lock());
+    let (wo, co) = counting_waker();
+    assert!(older.as_mut().poll(&mut Context::from_waker(&wo)).is_pending());
+    let keep = m.clone();
+    let h = spawn(move || {
+        let mr: &'static GenericMutex<LoomRaw, Tracked> = unsafe { &*(&*keep as *const GenericMutex<LoomRaw, Tracked>) };
+        let mut newer = Box::pin(mr.lock());
+        let (wn, _cn) = counting_waker();
+        let overtook = match newer.as_mut().poll(&mut Context::from_waker(&wn)) {
+            Poll::Ready(g) => {
+                drop(g);
+                true
+            }
+            Poll::Pending => false,
+        };
+        drop(newer);
+        (overtook, keep)
+    });
+    drop(g);
+    let (overtook, _keep) = h.join().unwrap();
+    assert!(!overtook, "C04: a lock future that started waiting later obtained the fair mutex while an earlier one was still pending");
+    assert!(co.load(Ordering::SeqCst) > 0, "C03: the mutex is free and the oldest lock future is pending, but it has not been woken");
+    match older.as_mut().poll(&mut Context::from_waker(&wo)) {
+        Poll::Ready(g) => drop(g),
+        Poll::Pending => panic!("C03: the mutex is free but the woken lock future stays pending"),
+    }
+    drop(older);
+    epilogue_mutex(&m);
+}
+
+/// no guard exists at any time: is_locked() is false, whatever another thread is doing inside
+/// the mutex's critical sections
+fn mutex_is_locked_contended() {
+    let m = Arc::new(GenericMutex::<LoomRaw, Tracked>::new(Tracked::new(), false));
+    let _ = m.is_locked();
+    let m1 = m.clone();
+    let h = spawn(move || {
+        let f = m1.lock();
+        drop(f);
+        let _ = m1.is_locked();
+        let mut f2 = Box::pin(m1.lock());
+        // (never polled to completion by this thread: no guard is created)
+        let _ = &mut f2;
+        drop(f2);
+    });
+    assert!(!m.is_locked(), "C02: is_locked() is true although no guard has ever existed");
+    assert!(!m.is_locked(), "C02: is_locked() is true although no guard has ever existed");
+    h.join().unwrap();
+    epilogue_mutex(&m);
+}
+
+/// Debug formatting of the borrowed channel and of the shared handles while another thread pushes
+/// into a `Send + !Sync` user buffer under the lock
+fn mpmc_debug_vs_push_exclusive() {
+    let c = Arc::new(futures_intrusive::channel::GenericChannel::<LoomRaw, u32, ProbeBuf>::with_capacity(2));
+    let _ = c.try_receive();
+    let c1 = c.clone();
+    let h = spawn(move || {
+        let _ = c1.try_send(1);
+        let _ = c1.try_send(2);
+    });
+    let text = format!("{:?}", c);
+    assert!(!text.is_empty());
+    let _ = format!("{:?}", c);
+    h.join().unwrap();
+    let (tx, rx) = sh::generic_channel::<LoomRaw, u32, ProbeBuf>(2);
+    let _ = rx.try_receive();
+    let tx1 = tx.clone();
+    let h = spawn(move || {
+        let _ = tx1.try_send(1);
+    });
+    let _ = format!("{:?} {:?}", tx, rx);
+    h.join().unwrap();
+}
+
 // ------------------------------------------------ many parked waiters under threads
 // Mass wake-ups that are split into several critical sections once more than some number of
 // futures are parked (batches of 16 / 32 / 64) behave like the original below the threshold and
@@ -1189,6 +1418,12 @@ fn timer_many_vs_abandon() {
         assert!(f.as_mut().poll(&mut Context::from_waker(&w)).is_pending());
     }
     let victim = SendBox(Box::new(parked.remove(MANY / 2)));
+    // two timers that are not due yet: they have to survive whatever the race does to the heap
+    let (ws, cs) = plain_waker();
+    let mut survivors: Vec<_> = (0..2).map(|_| Box::pin(Timer::deadline(tr, 7))).collect();
+    for f in survivors.iter_mut() {
+        assert!(f.as_mut().poll(&mut Context::from_waker(&ws)).is_pending());
+    }
     CLK.0.store(1, Ordering::SeqCst);
     let t1 = t.clone();
     let h1 = spawn(move || t1.check_expirations());
@@ -1216,7 +1451,16 @@ fn timer_many_vs_abandon() {
     assert!(late.as_mut().poll(&mut Context::from_waker(&wl)).is_ready(), "C15: due timer future does not complete");
     drop(late);
     drop(parked);
-    epilogue_timer(&t, 5);
+    assert_eq!(cs.load(Ordering::SeqCst), 0, "C15: a timer with deadline 7 was woken at clock 5");
+    assert_eq!(t.next_expiration(), Some(7), "C15/C01: registered timers that are not due have been lost from the heap");
+    CLK.0.store(7, Ordering::SeqCst);
+    t.check_expirations();
+    assert!(cs.load(Ordering::SeqCst) >= 2, "C15: due timers not woken");
+    for f in survivors.iter_mut() {
+        assert!(f.as_mut().poll(&mut Context::from_waker(&ws)).is_ready(), "C15: due timer future does not complete");
+    }
+    drop(survivors);
+    epilogue_timer(&t, 7);
 }
 
 // ------------------------------------------------ no allocation inside library calls, under threads
@@ -2650,6 +2894,15 @@ const SCENARIOS: &[(&str, &str, Scenario)] = &[
     ("timer_check_vs_first_poll", "wk:C15", timer_check_vs_first_poll),
     ("state_two_senders", "hook:C13", state_two_senders),
     ("oneshot_two_sends_by_ref", "C12", oneshot_two_sends_by_ref),
+    ("timer_expire_vs_drop", "wk:C01,C15", timer_expire_vs_drop),
+    ("event_set_vs_drop", "wk:C01,C14", event_set_vs_drop),
+    ("sem_release_vs_drop", "wk:C01,C06", sem_release_vs_drop),
+    ("mutex_unlock_vs_drop", "wk:C01,C03", mutex_unlock_vs_drop),
+    ("mpmc_send_vs_drop_recv", "wk:C01,C10", mpmc_send_vs_drop_recv),
+    ("event_set_vs_first_poll", "wk:C14", event_set_vs_first_poll),
+    ("mutex_fair_newcomer", "wk:C03,C04", mutex_fair_newcomer),
+    ("mutex_is_locked_contended", "C02", mutex_is_locked_contended),
+    ("mpmc_debug_vs_push_exclusive", "C08,C16", mpmc_debug_vs_push_exclusive),
     ("mutex_debug_vs_guard", "C02,C16", mutex_debug_vs_guard),
     ("event_many_set_vs_reset", "C01,C14", event_many_set_vs_reset),
     ("timer_many_vs_abandon", "C01,C15", timer_many_vs_abandon),
